@@ -23,7 +23,7 @@ CLAIMS = {
                     'bracket construction (ESC, BRACKET); rendered expressions are never ranked as text on the extraction path (TAGFREE); examples are observed values, not declared categorical levels (OBSERVED); padding and strip counter (WSPAD, STRIPCOUNT); both category sets built together (CATSYNC).',
             'technique': 'def-use/shape checks on the AST, abstract interpretation of fragment2re/escaped_bracket on enumerated inputs + regex parse-tree inspection'},
     'C14': {'text': 'every random.* call lies inside a seeded, restored region on every call chain from the entry points (PRNG); PRNGState is '
-                    'followed at once by try/finally restore and seeds on `is not None` (RESTORE); set-to-sequence conversions are sorted (ORDER); memo key complete (MEMO); no entry point changes a container it was handed (ARGMUT); caps never limit what is seen (EVIDENCE); Series examples are observed values (OBSERVED); every module-level memo is keyed by all parameters its value depends on (MEMO); the caller's seed reaches PRNGState unconditionally (SEEDFWD).',
+                    'followed at once by try/finally restore and seeds on `is not None` (RESTORE); set-to-sequence conversions are sorted (ORDER); memo key complete (MEMO); no entry point changes a container it was handed (ARGMUT); caps never limit what is seen (EVIDENCE); Series examples are observed values (OBSERVED); every module-level memo is keyed by all parameters its value depends on (MEMO); the seed given by the caller reaches PRNGState unconditionally (SEEDFWD).',
             'technique': 'reverse call-graph chain enumeration with region membership, statement-adjacency check, def-use, interprocedural may-alias walk for in-place mutation'},
     'C04': {'text': 'actual and expected sides are transformed identically (SYM) and split into lines by the same primitive (SPLIT); the '
                     'failure count reaches the assertion (PROP); no handler swallows a failure (EXC); the permutation allowance is bounded '
